@@ -984,7 +984,9 @@ def _is_projection(e, var, consts, helper=None):
             return _is_projection(e.args[0], var, consts, helper)
         # `typ(*x)`: a plain sequence wrapped into the factory's coordinate class (a constant of the factory); that
         # the constructor keeps the wire components as they are is a separate obligation on the coordinate classes
-        if isinstance(e.func, ast.Name) and e.func.id in consts and len(e.args) == 1 and not e.keywords \
+        ctor_const = (isinstance(e.func, ast.Name) and e.func.id in consts) or \
+            (isinstance(e.func, ast.Attribute) and isinstance(e.func.value, ast.Name) and e.func.value.id in ("self", "cls"))
+        if ctor_const and len(e.args) == 1 and not e.keywords \
                 and isinstance(e.args[0], ast.Starred):
             return _is_projection(e.args[0].value, var, consts, helper)
         if helper is not None and not e.keywords:
